@@ -74,17 +74,46 @@ def _eval(args) -> Tuple[str, str, List[str]]:
         shutil.rmtree(tmp, ignore_errors=True)
 
 
-def run(pid: str, repo: str, base_bad_keys: List[str], jobs: int = 16) -> Dict:
+def _touched(patch: str) -> List[str]:
+    out = []
+    try:
+        for line in open(patch, encoding="utf-8", errors="replace"):
+            if line.startswith("+++ b/") or line.startswith("--- a/"):
+                out.append(line[6:].strip())
+    except OSError:
+        pass
+    return sorted(set(out))
+
+
+def run(pid: str, repo: str, base_bad_keys: List[str], jobs: int = 16, consulted=None) -> Dict:
     vs = _variants()
     base = set(base_bad_keys)
-    jobs_in = [(pid, repo, v) for v in vs]
+    # A variant that touches none of the source files the property's rules read on the base tree cannot change
+    # the verdict (rules are functions of the normalised ASTs of the files they read; normalisation is per file,
+    # cross-file inputs are names and signatures only).  Such variants are counted as `unrelated` and not
+    # re-evaluated - except those recorded as breaking this very property, which are always evaluated.
+    unrelated = []
+    if consulted:
+        cs = set(consulted)
+        keep = []
+        for v in vs:
+            t = _touched(v["patch"])
+            if pid in v["expected"] or not t or any(f in cs for f in t) or os.environ.get("SV_SELFTEST_ALL"):
+                keep.append(v)
+            else:
+                unrelated.append(v["id"])
+        vs_eval = keep
+    else:
+        vs_eval = vs
+    jobs_in = [(pid, repo, v) for v in vs_eval]
     results = {}
     if jobs_in:
         with ProcessPoolExecutor(max_workers=min(jobs, len(jobs_in))) as ex:
             for sid, status, keys in ex.map(_eval, jobs_in, chunksize=2):
                 results[sid] = (status, keys)
-    report = {"variants": len(vs), "detected": [], "missed": [], "silent_ok": 0, "false_alarms": [], "skipped": [], "errors": []}
-    for v in vs:
+    report = {"variants": len(vs), "evaluated": len(vs_eval), "unrelated": len(unrelated), "consulted_files": list(consulted or []),
+              "detected": [], "missed": [], "silent_ok": 0, "false_alarms": [], "skipped": [], "errors": []}
+    for v in vs_eval:
         status, keys = results.get(v["id"], ("missing", []))
         new = [k for k in keys if k not in base]
         if status.startswith("skipped"):
